@@ -326,6 +326,15 @@ class Engine:
                 k = args[1]
                 if ad[0] == Z or ad[0] == I:
                     return ad[0]
+                for _ in range(4):
+                    # exponent bound to a local first (`let a = 1.2187; x.powf(a)`)
+                    if not (k.get("k") in ("copy", "move") and not k["place"]["p"]):
+                        break
+                    ds_ = defs.of(k["place"]["l"])
+                    if len(ds_) == 1 and ds_[0][0] == "stmt" and ds_[0][4]["k"] == "use":
+                        k = ds_[0][4]["op"]
+                    else:
+                        break
                 if k.get("k") == "const":
                     try:
                         kv = Fraction(k["i"]) if "i" in k else Fraction(float(k["f"])).limit_denominator(1000)
